@@ -234,6 +234,10 @@ func runHcScenario(t *testing.T, fam string, seed uint64, idx int, out *bufio.Wr
 		runHcBridge(t, fam, seed, idx, out)
 		return
 	}
+	if fam == "hc:race" || fam == "hc:bridgerace" {
+		runHcRace(t, fam, seed, idx, out)
+		return
+	}
 	g := newRng(newRng(seed*1000003 + uint64(idx)).next()) // hashed: consecutive seeds give shifted streams otherwise
 	synctest.Test(t, func(t *testing.T) {
 		r := &hcRun{log: &logger{out: out}, gates: map[int]chan hcResult{}}
